@@ -18,6 +18,7 @@ func genCfg(t *rapid.T) Config {
 	cfg.Bitops = rapid.Bool().Draw(t, "bitops")
 	cfg.StringCalls = rapid.Bool().Draw(t, "strcalls")
 	cfg.BlockReturn = rapid.Bool().Draw(t, "blockret")
+	cfg.AritySlack = rapid.Bool().Draw(t, "arityslack")
 	cfg.Patterns = rapid.Bool().Draw(t, "patterns")
 	return cfg
 }
